@@ -94,7 +94,7 @@ def build_clib():
             return out
         # remove stale builds (keep the 2 most recent: a scratch repo may be checked in parallel)
         old = sorted(glob.glob(os.path.join(BUILD, "clib-*")), key=os.path.getmtime, reverse=True)
-        for d in old[2:]:
+        for d in old[12:]:
             shutil.rmtree(d, ignore_errors=True)
         tmp = out + ".tmp"
         shutil.rmtree(tmp, ignore_errors=True)
@@ -142,7 +142,7 @@ def build_cdriver(name, clib):
         if os.path.exists(exe):
             return exe
         old = sorted(glob.glob(os.path.join(BUILD, "drv-" + name + "-*")), key=os.path.getmtime, reverse=True)
-        for d in old[2:]:
+        for d in old[12:]:
             shutil.rmtree(d, ignore_errors=True)
         os.makedirs(outd)
         cmd = ["gcc"] + CFLAGS + ["-I" + os.path.join(REPO, "include"), "-I" + os.path.join(REPO, "src"),
